@@ -18,8 +18,8 @@ type op struct {
 	Mk   func() gen.Stmt
 }
 
-func sa(a string) gen.Source   { return &gen.SrcAccount{E: gen.Acct(a)} }
-func da(a string) gen.Dest     { return &gen.DstAccount{E: gen.Acct(a)} }
+func sa(a string) gen.Source         { return &gen.SrcAccount{E: gen.Acct(a)} }
+func da(a string) gen.Dest           { return &gen.DstAccount{E: gen.Acct(a)} }
 func lst(s ...gen.Source) gen.Source { return &gen.SrcInorder{Srcs: s} }
 func over(a, asset, n string) gen.Source {
 	return &gen.SrcOverdraft{Addr: gen.Acct(a), Bounded: gen.Mon(asset, n)}
@@ -279,4 +279,92 @@ func perStatementFindings(c *seqCase, per [][]P, model *ref.Result) []finding {
 		}
 	}
 	return fs
+}
+
+// varOps: statements whose amounts, caps, overdraft bounds and portions come from VARIABLES that
+// several statements share. A value that is corrupted by one use (in-place arithmetic on a
+// number that aliases the stored variable) shows in the next use.
+func varOps() []op {
+	U := "USD"
+	v := func(n string) gen.Expr { return gen.V(n) }
+	sent := func(n string) gen.Sent { return &gen.SentLit{E: v(n)} }
+	ord := func(capE gen.Expr) gen.Dest {
+		return &gen.DstInorder{Clauses: []*gen.DstClause{{Cap: capE, To: &gen.To{D: da("x")}}}, Remaining: &gen.To{D: da("y")}}
+	}
+	odv := func(a string) gen.Source { return &gen.SrcOverdraft{Addr: gen.Acct(a), Bounded: v("cod")} }
+	return []op{
+		{"send $amt a->x", 0, func() gen.Stmt { return &gen.Send{Sent: sent("amt"), Src: sa("a"), Dst: da("x")} }},
+		{"send $amt world->{max $cap x, y}", 0, func() gen.Stmt { return &gen.Send{Sent: sent("amt"), Src: sa("world"), Dst: ord(v("cap"))} }},
+		{"send9 world->{max $cap x, y}", 0, func() gen.Stmt { return sendN(U, "9", sa("world"), ord(v("cap"))) }},
+		{"send* {a od $cod, b od $cod}->x", 0, func() gen.Stmt { return sendAllS(U, lst(odv("a"), odv("b")), da("x")) }},
+		{"send $amt a od $cod->x", 0, func() gen.Stmt { return &gen.Send{Sent: sent("amt"), Src: odv("a"), Dst: da("x")} }},
+		{"save $amt a", 0, func() gen.Stmt { return &gen.Save{Sent: sent("amt"), Acct: gen.Acct("a")} }},
+		{"save $amt b", 0, func() gen.Stmt { return &gen.Save{Sent: sent("amt"), Acct: gen.Acct("b")} }},
+		{"send $amt {max $cap a, b}->x", 0, func() gen.Stmt {
+			return &gen.Send{Sent: sent("amt"), Src: lst(&gen.SrcCapped{Cap: v("cap"), From: sa("a")}, sa("b")), Dst: da("x")}
+		}},
+		{"send7 world->{$p x, rem y}", 0, func() gen.Stmt {
+			return sendN(U, "7", sa("world"), &gen.DstAllot{Items: []*gen.DstAllotItem{{A: gen.V("p"), To: &gen.To{D: da("x")}}, {A: &gen.Remaining{}, To: &gen.To{D: da("y")}}}})
+		}},
+		{"send $amt {$p a, rem b}->x", 0, func() gen.Stmt {
+			return &gen.Send{Sent: sent("amt"), Src: &gen.SrcAllot{Items: []*gen.SrcAllotItem{{A: gen.V("p"), From: sa("a")}, {A: &gen.Remaining{}, From: sa("b")}}}, Dst: da("x")}
+		}},
+		{"tx k=$amt", 0, func() gen.Stmt { return &gen.Call{Name: "set_tx_meta", Args: []gen.Expr{gen.Str("k"), v("amt")}} }},
+		{"tx p=$p", 0, func() gen.Stmt { return &gen.Call{Name: "set_tx_meta", Args: []gen.Expr{gen.Str("p"), v("p")}} }},
+		{"am a.c=$cap", 0, func() gen.Stmt {
+			return &gen.Call{Name: "set_account_meta", Args: []gen.Expr{gen.Acct("a"), gen.Str("c"), v("cap")}}
+		}},
+		{"tx o=$cod", 0, func() gen.Stmt { return &gen.Call{Name: "set_tx_meta", Args: []gen.Expr{gen.Str("o"), v("cod")}} }},
+		{"send* max $cap {a b}->x", 0, func() gen.Stmt {
+			return sendAllS(U, &gen.SrcCapped{Cap: v("cap"), From: lst(sa("a"), sa("b"))}, da("x"))
+		}},
+		{"send $cap b->a", 0, func() gen.Stmt { return &gen.Send{Sent: sent("cap"), Src: sa("b"), Dst: da("a")} }},
+	}
+}
+
+var varOpValues = map[string][]string{
+	"amt": {"USD 3", "USD 30", "USD 18446744073709551616"},
+	"cap": {"USD 5", "USD 50", "USD 18446744073709551617"},
+	"cod": {"USD 2", "USD 10", "USD 18446744073709551616"},
+	"p":   {"25%", "1/3", "100%"},
+}
+
+// runVarSeqSpace: all sequences of minLen..maxLen statements of varOps x all values of the
+// variables they use x sheets a in {0,4,20,-50}, b in {0,100}.
+func runVarSeqSpace(w *mc.Worker, name string, minLen, maxLen int, body func(c *seqCase, vars map[string]string, bal env.Bal)) {
+	ops := varOps()
+	w.Stage(name, fmt.Sprintf("all sequences of %d..%d statements out of %d that take amounts / caps / overdraft bounds / portions from shared variables x 3 values per variable (incl. 2^64) x sheets a in {0,4,20,-50}, b in {0,100}", minLen, maxLen, len(ops)), func() {
+		w.Outer(name+"/seq", 0, func(o *mc.Explorer) {
+			n := minLen + o.Choose(maxLen-minLen+1)
+			c := &seqCase{Prog: &gen.Program{}}
+			for i := 0; i < n; i++ {
+				p := ops[o.Choose(len(ops))]
+				c.Stmts = append(c.Stmts, p.Mk())
+				c.Names = append(c.Names, p.Name)
+			}
+			c.Prog.Stmts = c.Stmts
+			names := declareUsed(c.Prog)
+			c.Text = gen.Text(c.Prog)
+			if !w.Mine(c.Text) {
+				return
+			}
+			w.Owned()
+			pr, ok := mustParse(w, c.Text)
+			if !ok {
+				return
+			}
+			c.PR = pr
+			as := bigs(0, 4, 20, -50)
+			bs := bigs(0, 100)
+			w.Inner(0, func(in *mc.Explorer) {
+				vars := map[string]string{}
+				for _, nm := range names {
+					vals := varOpValues[nm]
+					vars[nm] = vals[in.Choose(len(vals))]
+				}
+				bal := env.Bal{"a": {"USD": as[in.Choose(len(as))]}, "b": {"USD": bs[in.Choose(len(bs))]}}
+				body(c, vars, bal)
+			})
+		})
+	})
 }
